@@ -213,6 +213,8 @@ class Ctx:
         self.nontrivial = set()
         self.max_replayed_violations = 4
         self.unreplayed = []
+        self.known = load_known(pid)
+        self.known_confirmed = 0
 
     # -- bookkeeping
     def encoded(self, *fns):
@@ -289,7 +291,14 @@ class Ctx:
                 except Exception as e:     # pragma: no cover
                     wit[k] = "unreadable: %s" % e
         rec["witness"] = wit
-        if len(self.violations) >= self.max_replayed_violations:
+        is_known = any(fnmatch.fnmatch(full, pat) for k in self.known for pat in k["match"])
+        if is_known:
+            # a listed finding: confirm by replay twice per case, then list further matching obligations without replay
+            if self.known_confirmed >= 2:
+                rec["replay"] = "matches a listed known finding already confirmed by replay in this case"
+                self.violations.append(dict(obligation=full, witness=wit, replay=rec["replay"]))
+                return verdict, model
+        elif len([v for v in self.violations if not v.get("known")]) >= self.max_replayed_violations:
             # this case already has confirmed violations; further sat obligations are listed, not replayed
             rec["replay"] = "not replayed: the case already has %d confirmed violations" % len(self.violations)
             self.unreplayed.append(full)
@@ -337,7 +346,9 @@ class Ctx:
                 rec["replay"] = _jsonable(detail)
                 model = m2
         if ok:
-            self.violations.append(dict(obligation=full, witness=wit, replay=_jsonable(detail)))
+            self.violations.append(dict(obligation=full, witness=wit, replay=_jsonable(detail), known=bool(is_known)))
+            if is_known:
+                self.known_confirmed += 1
         else:
             self.harness_errors.append("%s: solver witness did not reproduce on the real code: %s" % (full, json.dumps(_jsonable(detail))[:600]))
         return verdict, model
